@@ -30,6 +30,9 @@ MODES = ["single", "list_all", "list_rest", "pair_all", "pair_rest"]
 REWRITES = ("zero", "one", "true-1", "true+1", "max")
 
 
+RECORD_LIST_CLASSES = ("SimilarityRequestPayload", "SimilarityResponsePayload")
+
+
 def _c02():
     from .props import c02_roundtrip
     c02_roundtrip.build_registry()
@@ -214,6 +217,17 @@ def judge(c02, subj, buf: bytes, start: int, mode: str, case: dict) -> str:  # n
                                               f"[{start}, {len(buf)}]", case)
         if end != w:
             raise Violation("D1", subj.short, f"({mode}) reported end {end}, the declared structure ends at {w}", case)
+        if mode == "single" and subj.cls.__name__ in RECORD_LIST_CLASSES:
+            # these messages carry a list of fixed-size records in a trailing byte string and split it themselves: an
+            # accepted value stands for every byte that was consumed (a cut inside a record is refused or kept, not lost)
+            try:
+                again = ser.pack_serializable(result[0])
+            except Exception:  # noqa: BLE001
+                again = None
+            if again is not None and len(again) != end - start:
+                raise Violation("D2", subj.short + ":records", f"{subj.short}: {end - start} byte(s) were accepted, the decoded "
+                                                               f"value stands for {len(again)} of them (a partial trailing "
+                                                               f"record was silently dropped)", case)
     elif mode.endswith("_all"):
         if w != len(buf):
             raise Violation("D1", "unpack_serializable_list", f"{subj.short}: consume_all=True accepts a buffer with "
